@@ -116,6 +116,18 @@ class Repo:
 
     # ------------------------------------------------------------------ loading
     def _load(self):
+        from . import normalize as _nz
+        pre = []
+        for dirpath, dirnames, filenames in os.walk(self.pkg):
+            dirnames[:] = sorted(d for d in dirnames if d not in _SKIP_DIRS)
+            for fn in sorted(filenames):
+                if fn.endswith(".py"):
+                    try:
+                        with open(os.path.join(dirpath, fn), "rb") as f:
+                            pre.append(ast.parse(f.read().decode("utf-8")))
+                    except (SyntaxError, UnicodeDecodeError):
+                        pass
+        _nz.REBOUND_ATTRS = _nz.collect_rebound_attrs(pre)
         for dirpath, dirnames, filenames in os.walk(self.pkg):
             dirnames[:] = sorted(d for d in dirnames if d not in _SKIP_DIRS)
             for fn in sorted(filenames):
